@@ -214,6 +214,16 @@ def run_shard(spec):
             ph["soil"]["conductivity"] = float(g.choice([0.5, 5.0]))
             ph["soil"]["rho_cp"] = float(g.choice([1.0e6, 4.0e6]))
         flow = GP.draw_flow(g, arr)
+        if g.random() < 0.2:
+            # thin-walled tubes (SDR-17/21, 32 x 1.5 mm, metal): walls of 0.4-1.9 mm
+            t_thin = float(round(g.uniform(0.0004, 0.0019), 5))
+            pp = ph["pipe"]
+            if arr == "COAXIAL":
+                pp["inner_pipe_d_in"] = float(round(pp["inner_pipe_d_out"] - 2 * t_thin, 5))
+                pp["outer_pipe_d_in"] = float(round(pp["outer_pipe_d_out"] - 2 * t_thin, 5))
+            else:
+                pp["inner_diameter"] = float(round(pp["outer_diameter"] - 2 * t_thin, 5))
+            res["thin_walled"] = res.get("thin_walled", 0) + 1
         case = {"phys": ph, "H": H, "flow": flow}
         try:
             bhe = GP.make_bhe(ph, H, flow)
@@ -294,6 +304,7 @@ def check(tier, seed):
         rep.count("solver_steps_observed", r["steps"])
         rep.count("skipped_unusable_exchanger", r["skipped"])
         rep.count("reused_model_object_runs", r.get("reused_object_runs", 0))
+        rep.count("thin_walled_tubes", r.get("thin_walled", 0))
         for k2, v2 in (r["hits"] or {}).items():
             hits[k2] += v2
         for k2, v2 in r["worst"].items():
